@@ -16,7 +16,7 @@ FUNCS1 = ["sqrt", "sin", "cos", "tan", "asin", "acos", "atan", "exp", "ln", "sin
 FUNCS2 = ["hypot", "atan2", "log"]
 # float-valued exponent expressions (whole, 1/n, neither; positive, zero, negative) and the bases they are applied to
 FEXPS = ["sqrt(2)", "ln(3)", "sqrt(0.25)", "sqrt(4)", "exp(0)", "sin(0)", "hypot(3, 4)", "(sqrt(9) / 2)", "(0 - sqrt(4))",
-         "(0 - sqrt(0.25))", "sqrt(1|9)", "sqrt(1|16)", "log2(8)", "(cos(0) * 3)", "atan2(0, 1)"]
+         "(0 - sqrt(0.25))", "sqrt(1|9)", "sqrt(1|16)", "log2(8)", "(cos(0) * 3)", "atan2(0, 1)", "(sqrt(4) - 2)", "(0 * sqrt(2))"]
 FBASES = ["(3 m)", "(2 kg)", "(4 m^2)", "(9 m^2/s^4)", "5", "(16 m^4 kg^-8)", "(0 m)", "(m/m)", "(sqrt(4) m^2)"]
 
 
